@@ -7,6 +7,7 @@ From ACB Require Import Base.Outcome Base.QcExtra Base.Arith Model.Tx Model.Ledg
 From Coq Require Import Sorted.
 From ACB Require Import Proofs.C15Full Proofs.SortLayout Proofs.C10Scan Proofs.C10Sim Proofs.C10Roundtrip
      Proofs.C10Ranges Proofs.C10Cut Proofs.C10Window Proofs.C10Classes Proofs.C10Holdings Proofs.C10Entry Proofs.C10Examples Proofs.C10Annual Proofs.C04Inv.
+From ACB Require Import Model.SummaryApp Proofs.C10Calendar Proofs.C10AnnualRun Proofs.C10AnnualEntry Proofs.C10AnnualEx.
 Import ListNotations.
 
 (* ------------------------------------------------------------------ the full statement
@@ -825,3 +826,156 @@ Check C10_annual_summary_rows : forall af fy ds d ys0 c,
   = Ok ((if Qcltb 0 (ah_n h) then [abuy_tx (d_tx d) (jan1 (fy - 1)) h] else [])
         ++ map (fun yg => asell_tx (d_tx d) (ysell af aps yg)) ys).
 Print Assumptions C10_annual_summary_rows.
+
+(* ==================================================================== extension 4: the annual mode at the entry points
+   (Proofs/C10Calendar.v, C10AnnualRun.v, C10AnnualRows.v, C10AnnualEntry.v, C10AnnualEx.v; design.d/C10-roundtrip.md) *)
+
+(* ------------------------------------------------------------------ (14) the calendar, all years and all days
+   1 January of the year of a day is not later than the day, 1 January of the
+   next year is; consecutive 1 Januaries are at least 365 days apart.  For
+   every integer (both Hinnant functions are periodic in the 400-year era;
+   one era is swept by computation). *)
+Theorem C10_calendar : forall d y,
+  (jan1 (Gains.year_of_day d) <= d < jan1 (Gains.year_of_day d + 1))%Z /\ (jan1 y + 365 <= jan1 (y + 1))%Z.
+Proof. intros d y. split; [apply year_civil | apply jan1_next]. Qed.
+Check C10_calendar : forall d y,
+  (jan1 (Gains.year_of_day d) <= d < jan1 (Gains.year_of_day d + 1))%Z /\ (jan1 y + 365 <= jan1 (y + 1))%Z.
+Print Assumptions C10_calendar.
+
+(* ------------------------------------------------------------------ (15) C10_roundtrip_annual_kept
+   C10_roundtrip_annual_partial WITH re-emitted rows: [K] the rows the full
+   history processes between the summarised prefix and the later rows [T],
+   [K'] their re-emission (keep_all).  The generated sales are transparent for
+   every backward scan and the base purchases lie before every window, so the
+   re-emitted rows report the same balances, cost bases and gains and the
+   later rows are reported EXACTLY. *)
+Theorem C10_roundtrip_annual_kept :
+  forall regof like d0 (hs : list ahold) (sells : list asell) K T B1 st1 dsK bK stK dsT K',
+  NoDup (map (fun h => af_id (ah_af h)) hs) -> Forall ah_ok hs ->
+  (forall h, In h hs -> ah_n h = (ah_sh h + qn (cnt (af_id (ah_af h)) sells))%Qc) ->
+  Forall (sell_ok hs (K' ++ T)) sells ->
+  StronglySorted (fun a b => in_gap (as_date a) b) sells -> NoDup (map akey sells) ->
+  Forall (fun s => (d0 < as_date s - window_days)%Z) sells ->
+  ps_all st1 = tot_sh hs -> lp st1 = ps_all st1 ->
+  (forall af, goodaf regof af -> obs st1 af = obs_hs hs af ah_sh (0%Qc, if af_reg af then None else Some 0%Qc)) ->
+  run_part exact B1 st1 K T = (dsK, bK, stK, None) ->
+  run_loop exact bK stK T = (dsT, None) ->
+  keep_all dsK = Ok K' ->
+  Forall spec_nz (K ++ T) -> st_ok st1 -> Forall sell_pos (K ++ T) ->
+  Forall (gooddelta regof) (dsK ++ dsT) ->
+  Forall (fun d => (d_sfl d <> None -> inert exact (d_sd d - window_days) B1)
+                   /\ (d0 < d_sd d - window_days)%Z) (dsK ++ dsT) ->
+  exists dsB dsS dsK',
+    run exact None (map (abuy_tx like d0) hs ++ map (asell_tx like) sells ++ K' ++ T) = (dsB ++ dsS ++ dsK' ++ dsT, None)
+    /\ Forall (fun d => d_gain d = None) dsB
+    /\ map d_gain dsS = map (fun s => Some (as_gain s - as_loss s)%Qc) sells
+    /\ Forall (fun d => d_sfl d = None) dsS
+    /\ map d_post dsK' = map d_post dsK /\ map d_gain dsK' = map d_gain dsK
+    /\ Forall (fun d => exists g, In g (map (abuy_tx like d0) hs ++ map (asell_tx like) sells ++ K') /\ d_sd d = t_sd g)
+              (dsB ++ dsS ++ dsK').
+Proof. exact roundtrip_annual_kept. Qed.
+Check C10_roundtrip_annual_kept :
+  forall regof like d0 (hs : list ahold) (sells : list asell) K T B1 st1 dsK bK stK dsT K',
+  NoDup (map (fun h => af_id (ah_af h)) hs) -> Forall ah_ok hs ->
+  (forall h, In h hs -> ah_n h = (ah_sh h + qn (cnt (af_id (ah_af h)) sells))%Qc) ->
+  Forall (sell_ok hs (K' ++ T)) sells ->
+  StronglySorted (fun a b => in_gap (as_date a) b) sells -> NoDup (map akey sells) ->
+  Forall (fun s => (d0 < as_date s - window_days)%Z) sells ->
+  ps_all st1 = tot_sh hs -> lp st1 = ps_all st1 ->
+  (forall af, goodaf regof af -> obs st1 af = obs_hs hs af ah_sh (0%Qc, if af_reg af then None else Some 0%Qc)) ->
+  run_part exact B1 st1 K T = (dsK, bK, stK, None) ->
+  run_loop exact bK stK T = (dsT, None) ->
+  keep_all dsK = Ok K' ->
+  Forall spec_nz (K ++ T) -> st_ok st1 -> Forall sell_pos (K ++ T) ->
+  Forall (gooddelta regof) (dsK ++ dsT) ->
+  Forall (fun d => (d_sfl d <> None -> inert exact (d_sd d - window_days) B1)
+                   /\ (d0 < d_sd d - window_days)%Z) (dsK ++ dsT) ->
+  exists dsB dsS dsK',
+    run exact None (map (abuy_tx like d0) hs ++ map (asell_tx like) sells ++ K' ++ T) = (dsB ++ dsS ++ dsK' ++ dsT, None)
+    /\ Forall (fun d => d_gain d = None) dsB
+    /\ map d_gain dsS = map (fun s => Some (as_gain s - as_loss s)%Qc) sells
+    /\ Forall (fun d => d_sfl d = None) dsS
+    /\ map d_post dsK' = map d_post dsK /\ map d_gain dsK' = map d_gain dsK
+    /\ Forall (fun d => exists g, In g (map (abuy_tx like d0) hs ++ map (asell_tx like) sells ++ K') /\ d_sd d = t_sd g)
+              (dsB ++ dsS ++ dsK').
+Print Assumptions C10_roundtrip_annual_kept.
+
+(* ------------------------------------------------------------------ (16) C10_roundtrip_annual_single_security_partial
+   THE ROUND TRIP AT THE MODEL'S ENTRY POINTS, ANNUAL mode, any date (re-emitted
+   rows included), one security, no rows entered for all affiliates; same side
+   conditions as (10).  From history_ok, outside K_zero_balance_acb and outside
+   K_annual_row_in_window: make_summary succeeds, (summary ++ rows after the
+   date) is accepted and reports every later row as the full history does,
+   strictly and observationally.  K_summary_buy_in_window is NOT needed: the
+   base purchases are dated 1 January of the year before the first row, at
+   least 365 days before every row (C10_calendar).
+   PARTIAL in exactly one respect: the class is K_annual_row_in_window (ANY
+   re-emitted or later row within 30 days after a generated loss sale) instead
+   of K_annual_sell_in_window (an ACQUISITION ...); the first contains the
+   second (C10_annual_classes).  Between them: a later SALE or SPLIT within 30
+   days after a generated 1-January loss sale; the forward scan of the
+   generated sale then runs over real rows and must be shown not to reject
+   (RejAheadAllNegative / RejAheadAfNegative) - true because the re-run holds
+   at least the real shares, but it needs the look-ahead invariant of
+   Proofs/C04Ahead.v for the re-run state.  The full statement is the
+   Definition below. *)
+Theorem C10_roundtrip_annual_single_security_partial : forall regof sec latest rows0,
+  let rows := number_from 0 rows0 in
+  Forall (rowQ regof sec) rows0 -> forallb valid_tx rows0 = true -> K_zero_sfl_cell rows0 = false ->
+  history_ok exact rows = true ->
+  K_annual_row_in_window exact latest true rows = false ->
+  K_zero_balance_acb exact latest rows = false ->
+  (forall sums, make_summary exact latest (fst (sec_run exact rows)) true = Ok sums -> through_csv sums = sums) ->
+  roundtrip_ok exact latest true rows = true /\ roundtrip_obs_ok exact latest true rows = true.
+Proof. exact roundtrip_annual_single_security_exec. Qed.
+Check C10_roundtrip_annual_single_security_partial : forall regof sec latest rows0,
+  let rows := number_from 0 rows0 in
+  Forall (rowQ regof sec) rows0 -> forallb valid_tx rows0 = true -> K_zero_sfl_cell rows0 = false ->
+  history_ok exact rows = true ->
+  K_annual_row_in_window exact latest true rows = false ->
+  K_zero_balance_acb exact latest rows = false ->
+  (forall sums, make_summary exact latest (fst (sec_run exact rows)) true = Ok sums -> through_csv sums = sums) ->
+  roundtrip_ok exact latest true rows = true /\ roundtrip_obs_ok exact latest true rows = true.
+Print Assumptions C10_roundtrip_annual_single_security_partial.
+
+Definition C10_roundtrip_annual_single_security_full : Prop := forall regof sec latest rows0,
+  let rows := number_from 0 rows0 in
+  Forall (rowQ regof sec) rows0 -> forallb valid_tx rows0 = true -> K_zero_sfl_cell rows0 = false ->
+  history_ok exact rows = true ->
+  K_annual_sell_in_window exact latest true rows = false ->
+  K_zero_balance_acb exact latest rows = false ->
+  (forall sums, make_summary exact latest (fst (sec_run exact rows)) true = Ok sums -> through_csv sums = sums) ->
+  roundtrip_ok exact latest true rows = true /\ roundtrip_obs_ok exact latest true rows = true.
+
+Theorem C10_annual_classes : forall A latest annual rows,
+  K_annual_sell_in_window A latest annual rows = true -> K_annual_row_in_window A latest annual rows = true.
+Proof. exact K2s_contains_K2. Qed.
+Check C10_annual_classes : forall A latest annual rows,
+  K_annual_sell_in_window A latest annual rows = true -> K_annual_row_in_window A latest annual rows = true.
+Print Assumptions C10_annual_classes.
+
+(* non-vacuity of (16): the history of C10_roundtrip_annual_partial_nonvacuous
+   (two affiliates, a loss year, a later superficial loss) and the same
+   history with a purchase that is RE-EMITTED (5 generated rows, 1 re-emitted
+   row, 3 later rows of which one is a superficial loss) *)
+Example C10_roundtrip_annual_single_security_nonvacuous :
+  (number_from 0 an_rows = an_rows
+   /\ Forall (rowQ no_reg 0) an_rows /\ forallb valid_tx an_rows = true /\ K_zero_sfl_cell an_rows = false
+   /\ history_ok exact an_rows = true
+   /\ K_annual_row_in_window exact an_date true an_rows = false
+   /\ K_zero_balance_acb exact an_date an_rows = false
+   /\ (forall sums, make_summary exact an_date (fst (sec_run exact an_rows)) true = Ok sums -> through_csv sums = sums)
+   /\ existsb is_sfl_delta (later_deltas an_date (fst (sec_run exact an_rows))) = true)
+  /\ (number_from 0 an2_rows = an2_rows
+      /\ Forall (rowQ no_reg 0) an2_rows /\ forallb valid_tx an2_rows = true /\ K_zero_sfl_cell an2_rows = false
+      /\ history_ok exact an2_rows = true
+      /\ K_annual_row_in_window exact an2_date true an2_rows = false
+      /\ K_zero_balance_acb exact an2_date an2_rows = false
+      /\ (forall sums, make_summary exact an2_date (fst (sec_run exact an2_rows)) true = Ok sums -> through_csv sums = sums)
+      /\ match make_summary_parts exact an2_date (fst (sec_run exact an2_rows)) true with
+         | Ok (gen, kept) => (length gen, map (fun t => act_tag (t_act t)) kept)
+         | _ => (O, [])
+         end = (5%nat, [0%N])
+      /\ map (fun d => (d_sd d, is_sfl_delta d)) (later_deltas an2_date (fst (sec_run exact an2_rows)))
+         = [(737680, true); (737680, false); (737700, false)]%Z).
+Proof. split; [exact an_entry_hypotheses | exact an2_entry_hypotheses]. Qed.
